@@ -82,6 +82,8 @@ pub struct Probe<S, const LIFE: bool> {
     pub synth_at: Vec<usize>,
     bs_calls: usize,
     pub live: Rc<std::cell::Cell<bool>>,
+    /// user code that runs inside this source's Drop (re-enters the loop through a handle)
+    pub on_drop: Option<Box<dyn FnOnce()>>,
 }
 
 impl<S, const LIFE: bool> Probe<S, LIFE> {
@@ -94,6 +96,7 @@ impl<S, const LIFE: bool> Probe<S, LIFE> {
             synth_at,
             bs_calls: 0,
             live: Rc::new(std::cell::Cell::new(true)),
+            on_drop: None,
         }
     }
 }
@@ -101,6 +104,9 @@ impl<S, const LIFE: bool> Probe<S, LIFE> {
 impl<S, const LIFE: bool> Drop for Probe<S, LIFE> {
     fn drop(&mut self) {
         ev("drop_src", json!({"s": self.id}));
+        if let Some(f) = self.on_drop.take() {
+            f();
+        }
     }
 }
 
